@@ -934,6 +934,12 @@ class String2Key(Field):
     def __bytearray__(self):
         _bytes = bytearray()
         _bytes.append(self.usage)
+        if bool(self) and self.usage not in [254, 255]:
+            # the usage octet is the cipher id itself; only the IV follows
+            if self.iv is not None:
+                _bytes += self.iv
+            return _bytes
+
         if bool(self):
             _bytes.append(self.encalg)
             _bytes.append(self.specifier)
@@ -962,7 +968,7 @@ class String2Key(Field):
         return len(self.__bytearray__())
 
     def __bool__(self):
-        return self.usage in [254, 255]
+        return self.usage != 0
 
     def __nonzero__(self):
         return self.__bool__()
@@ -983,6 +989,17 @@ class String2Key(Field):
     def parse(self, packet, iv=True):
         self.usage = packet[0]
         del packet[0]
+
+        if bool(self) and self.usage not in [254, 255]:
+            # any other value is a symmetric-key encryption algorithm identifier (RFC 4880, 5.5.3):
+            # the secret data is encrypted with that cipher, the key is the MD5 hash of the passphrase (3.7.2.1)
+            self.encalg = self.usage
+            self.specifier = String2KeyType.Simple
+            self.halg = HashAlgorithm.MD5
+            if iv:
+                self.iv = packet[:(self.encalg.block_size // 8)]
+                del packet[:(self.encalg.block_size // 8)]
+            return
 
         if bool(self):
             self.encalg = packet[0]
@@ -1297,7 +1314,7 @@ class PrivKey(PubKey):
             # of the key material block
             raise PGPDecryptionError("Passphrase was incorrect!")
 
-        if self.s2k.usage == 255 and not self.bytes_to_int(pt[-2:]) == (sum(bytearray(pt[:-2])) % 65536):  # pragma: no cover
+        if self.s2k.usage != 254 and not self.bytes_to_int(pt[-2:]) == (sum(bytearray(pt[:-2])) % 65536):  # pragma: no cover
             # if the usage byte is 255, key material is followed by a 2-octet checksum of the rest
             # of the key material block
             raise PGPDecryptionError("Passphrase was incorrect!")
